@@ -341,3 +341,727 @@ Section dominance.
       apply Hb in Hfull. set_solver.
   Qed.
 End dominance.
+
+(* ------------------------------------------------------------------ *)
+(* compute_dominators: the iterative data flow                         *)
+(* ------------------------------------------------------------------ *)
+Lemma sum_list_with_replicate {A} (f : A → nat) k x :
+  sum_list_with f (replicate k x) = k * f x.
+Proof. induction k; simpl; lia. Qed.
+
+Lemma inter_preds_spec D ps acc :
+  (∀ j, j ∈ ps → j < length D) →
+  ∃ s, inter_preds D ps acc = Ok s ∧
+       ∀ x, mem x s = true ↔ mem x acc = true ∧ ∀ j, j ∈ ps → mem x (D !!! j) = true.
+Proof.
+  revert acc. induction ps as [|j ps IH]; intros acc Hps.
+  - exists acc. split; [done|]. intros x. set_solver.
+  - cbn [inter_preds]. rewrite get_ok by (apply Hps; set_solver).
+    destruct (IH (N.land acc (D !!! j))) as (s & -> & Hs); [intros; apply Hps; set_solver|].
+    exists s. split; [done|]. intros x. rewrite Hs, mem_land, andb_true_iff.
+    split.
+    + intros [[? ?] HH]. split; [done|]. intros j' [->|?]%elem_of_cons; auto.
+    + intros [? HH]. split_and!; [done|apply HH; set_solver|intros; apply HH; set_solver].
+Qed.
+
+Section dataflow.
+  Context (g : graph) (Hg : rooted g).
+  Notation n := (length g).
+
+  Lemma lookup_total_node i : i < n → g !! i = Some (g !!! i).
+  Proof. apply list_lookup_lookup_total_lt. Qed.
+
+  Lemma preds_lt i q : i < n → q ∈ preds (g !!! i) → q < n.
+  Proof. intros Hi. eapply rooted_preds; [done|]. by apply lookup_total_node. Qed.
+
+  Lemma preds_edge i q : i < n → q ∈ preds (g !!! i) → edge g q i.
+  Proof. intros Hi. eapply pred_edge; [done|]. by apply lookup_total_node. Qed.
+
+  Lemma edge_preds q i : edge g q i → i < n ∧ q ∈ preds (g !!! i).
+  Proof.
+    intros He. destruct (edge_pred g Hg _ _ He) as (x & Hx & Hq).
+    split; [by eapply lookup_lt_Some|]. by rewrite (list_lookup_total_correct _ _ _ Hx).
+  Qed.
+
+  (* the set `new_dominators` of block i in state D *)
+  Definition New (D : list N) (i x : nat) : Prop :=
+    x = i ∨ (x < n ∧ ∀ q, q ∈ preds (g !!! i) → mem x (D !!! q) = true).
+
+  Lemma new_dominators_spec D i :
+    length D = n → i < n →
+    ∃ s, new_dominators g n D i = Ok s ∧ ∀ x, mem x s = true ↔ New D i x.
+  Proof.
+    intros HD Hi. unfold new_dominators. rewrite get_ok by done. cbn [Base.bind].
+    destruct (inter_preds_spec D (preds (g !!! i)) (full n)) as (s & -> & Hs).
+    { intros j Hj. rewrite HD. by eapply preds_lt. }
+    cbn [Base.bind]. eexists; split; [done|]. intros x.
+    rewrite mem_ins, orb_true_iff, Hs, mem_full, !bool_decide_eq_true. done.
+  Qed.
+
+  Record inv (D : list N) : Prop := {
+    inv_len : length D = n;
+    inv_entry : D !!! 0 = ins 0 0%N;
+    inv_sound : ∀ j x, j < n → dom g x j → mem x (D !!! j) = true;
+    inv_dec : ∀ i x, 1 ≤ i < n → New D i x → mem x (D !!! i) = true;
+  }.
+
+  Definition mu (D : list N) : nat := sum_list_with card D.
+
+  Lemma dom_New D i x : inv D → i < n → dom g x i → New D i x.
+  Proof.
+    intros HI Hi Hd. destruct (decide (x = i)) as [|Hne]; [by left|right].
+    split; [by eapply dom_lt|]. intros q Hq.
+    apply (inv_sound _ HI); [by eapply preds_lt|].
+    eapply dom_pred; eauto using preds_edge.
+  Qed.
+
+  Lemma inv_update D i s :
+    inv D → 1 ≤ i < n → (∀ x, mem x s = true ↔ New D i x) → inv (<[i:=s]> D).
+  Proof.
+    intros HI Hi Hs.
+    pose proof (inv_len _ HI) as HL.
+    assert (∀ q x, mem x (<[i:=s]> D !!! q) = true → mem x (D !!! q) = true) as Hle.
+    { intros q x. destruct (decide (q = i)) as [->|].
+      - rewrite list_lookup_total_insert by lia. intros ?%Hs. by apply (inv_dec _ HI).
+      - by rewrite list_lookup_total_insert_ne. }
+    split.
+    - by rewrite insert_length.
+    - rewrite list_lookup_total_insert_ne by lia. apply (inv_entry _ HI).
+    - intros j x Hj Hd. destruct (decide (j = i)) as [->|].
+      + rewrite list_lookup_total_insert by lia. apply Hs. by apply dom_New.
+      + rewrite list_lookup_total_insert_ne by done. by apply (inv_sound _ HI).
+    - intros i' x Hi' HN.
+      assert (New D i' x) as HN'.
+      { destruct HN as [|[? H]]; [by left|right]. split; [done|]. intros q Hq. apply Hle; auto. }
+      destruct (decide (i' = i)) as [->|].
+      + rewrite list_lookup_total_insert by lia. by apply Hs.
+      + rewrite list_lookup_total_insert_ne by done. by apply (inv_dec _ HI).
+  Qed.
+
+  Lemma mu_update D i s :
+    inv D → 1 ≤ i < n → (∀ x, mem x s = true ↔ New D i x) → s ≠ D !!! i →
+    mu (<[i:=s]> D) < mu D.
+  Proof.
+    intros HI Hi Hs Hne. unfold mu.
+    assert (D !! i = Some (D !!! i)) as HDi.
+    { apply list_lookup_lookup_total_lt. rewrite (inv_len _ HI). lia. }
+    pose proof (sum_list_with_insert card D i (D !!! i) s HDi).
+    assert (card s < card (D !!! i)); [|lia].
+    apply card_lt; [|done]. intros x ?%Hs. by apply (inv_dec _ HI).
+  Qed.
+
+  Lemma dom_pass_spec is D done :
+    inv D → (∀ i, i ∈ is → 1 ≤ i < n) →
+    ∃ D' done', dom_pass g n is D done = Ok (D', done') ∧ inv D' ∧ mu D' ≤ mu D ∧
+      ((done' = done ∧ D' = D ∧ ∀ i x, i ∈ is → (mem x (D !!! i) = true ↔ New D i x))
+       ∨ (done' = false ∧ mu D' < mu D)).
+  Proof.
+    revert D done. induction is as [|i is IH]; intros D done HI His.
+    - exists D, done. split_and!; [done|done|done|]. left. set_solver.
+    - assert (1 ≤ i < n) as Hi by (apply His; set_solver).
+      destruct (new_dominators_spec D i) as (s & Hnew & Hs); [apply HI|lia|].
+      cbn [dom_pass]. rewrite Hnew. cbn [Base.bind].
+      rewrite get_ok by (rewrite (inv_len _ HI); lia). cbn [Base.bind].
+      destruct (N.eqb s (D !!! i)) eqn:E.
+      + apply N.eqb_eq in E.
+        destruct (IH D done HI) as (D' & done' & -> & HI' & Hmu & Hcase); [intros; apply His; set_solver|].
+        exists D', done'. split_and!; [done|done|done|].
+        destruct Hcase as [(-> & -> & Hfix)|?]; [left|by right].
+        split_and!; [done|done|]. intros i' x [->|?]%elem_of_cons; [|by apply Hfix].
+        by rewrite <- E.
+      + apply N.eqb_neq in E.
+        pose proof (inv_update D i s HI Hi Hs) as HI1.
+        pose proof (mu_update D i s HI Hi Hs E) as Hmu1.
+        destruct (IH (<[i:=s]> D) false HI1) as (D' & done' & -> & HI' & Hmu & Hcase);
+          [intros; apply His; set_solver|].
+        exists D', done'. split_and!; [done|done|lia|]. right.
+        destruct Hcase as [(-> & -> & _)|[-> ?]]; split; (done || lia).
+  Qed.
+
+  Definition is_fix (D : list N) : Prop :=
+    ∀ i x, 1 ≤ i < n → (mem x (D !!! i) = true ↔ New D i x).
+
+  Lemma dom_loop_spec fuel D :
+    inv D → mu D < fuel → ∃ D', dom_loop fuel g n D = Ok D' ∧ inv D' ∧ is_fix D'.
+  Proof.
+    revert D. induction fuel as [|fuel IH]; intros D HI Hmu; [lia|].
+    pose proof (rooted_nonempty g Hg) as Hn.
+    destruct (dom_pass_spec (seq 1 (n - 1)) D true HI) as (D' & done' & Hp & HI' & Hmu' & Hcase).
+    { intros i ?%elem_of_seq. lia. }
+    cbn [dom_loop]. rewrite Hp. cbn [Base.bind fst snd].
+    destruct Hcase as [(-> & -> & Hfix)|[-> ?]].
+    - exists D. split_and!; [done|done|]. intros i x Hi. apply Hfix, elem_of_seq. lia.
+    - apply IH; [done|lia].
+  Qed.
+
+  Lemma inv_init : inv (dom_init n).
+  Proof.
+    pose proof (rooted_nonempty g Hg) as Hn. unfold dom_init. split.
+    - simpl. rewrite replicate_length. lia.
+    - done.
+    - intros j x Hj Hd. destruct j as [|j].
+      + apply (dom_of_entry g Hg) in Hd as ->. done.
+      + change ((?a :: ?l) !!! S j) with (l !!! j).
+        rewrite lookup_total_replicate_2 by lia. rewrite mem_full, bool_decide_eq_true.
+        by eapply dom_lt.
+    - intros i x Hi HN. destruct i as [|i]; [lia|].
+      change ((?a :: ?l) !!! S i) with (l !!! i).
+      rewrite lookup_total_replicate_2 by lia. rewrite mem_full, bool_decide_eq_true.
+      destruct HN as [->|[? _]]; lia.
+  Qed.
+
+  Lemma mu_init : mu (dom_init n) < dom_fuel g.
+  Proof.
+    pose proof (rooted_nonempty g Hg) as Hn. unfold mu, dom_init, dom_fuel.
+    cbn [sum_list_with]. rewrite sum_list_with_replicate.
+    assert (card (full n) ≤ n).
+    { apply card_bounded. intros i. rewrite mem_full, bool_decide_eq_true. done. }
+    assert (card (ins 0 0%N) = 1) as -> by done. nia.
+  Qed.
+
+  Lemma fixpoint_exact D :
+    inv D → is_fix D → ∀ j x, j < n → (mem x (D !!! j) = true ↔ dom g x j).
+  Proof.
+    intros HI Hfix j x Hj. split; [|by apply (inv_sound _ HI)].
+    intros Hm l Hl. revert j x Hj Hm Hl.
+    induction l as [|y l0 IH] using rev_ind; intros j x Hj Hm Hl.
+    { inversion Hl. }
+    destruct (path_snoc_inv _ _ _ _ Hl) as [[Hl1 <-]|(l' & b & Heq & Hp & He)].
+    - rewrite (inv_entry _ HI), mem_ins, mem_0, orb_false_r, bool_decide_eq_true in Hm.
+      subst x. rewrite Hl1. set_solver.
+    - apply app_inj_tail in Heq as [-> ->].
+      assert (1 ≤ j < n) as Hj1.
+      { split; [|done]. destruct j; [|lia]. by apply (entry_no_pred g Hg) in He. }
+      apply (Hfix j x Hj1) in Hm as [->|[_ Hq]]; [set_solver|].
+      apply edge_preds in He as [_ Hb]. specialize (Hq _ Hb).
+      apply elem_of_app; left. eapply IH; [|done|done]. by eapply path_dst_lt.
+  Qed.
+
+  (* enough fuel, exact result *)
+  Theorem compute_dominators_correct :
+    ∃ D, compute_dominators (dom_fuel g) g = Ok D ∧ length D = n ∧
+         ∀ j x, j < n → (mem x (D !!! j) = true ↔ dom g x j).
+  Proof.
+    destruct (dom_loop_spec (dom_fuel g) (dom_init n) inv_init mu_init) as (D & HD & HI & Hfix).
+    exists D. split_and!; [done|apply HI|]. by apply fixpoint_exact.
+  Qed.
+End dataflow.
+
+(* ------------------------------------------------------------------ *)
+(* compute_immediate_dominators                                        *)
+(* ------------------------------------------------------------------ *)
+Lemma card_le_1_eq c x y : card c ≤ 1 → mem x c = true → mem y c = true → x = y.
+Proof.
+  intros Hc Hx%elem_of_members Hy%elem_of_members. unfold card in Hc.
+  destruct (members c) as [|a [|b l]]; simpl in Hc; [set_solver|set_solver|lia].
+Qed.
+
+Lemma card_le_1_intro c : (∀ x y, mem x c = true → mem y c = true → x = y) → card c ≤ 1.
+Proof.
+  intros H. unfold card. pose proof (NoDup_members c) as Hnd.
+  destruct (members c) as [|a [|b l]] eqn:E; simpl; [lia|lia|exfalso].
+  assert (a = b) as ->.
+  { apply H; apply elem_of_members; rewrite E; set_solver. }
+  apply NoDup_cons in Hnd as [Hnd _]. set_solver.
+Qed.
+
+Lemma list_max_by (f : nat → nat) (l : list nat) :
+  l ≠ [] → ∃ x, x ∈ l ∧ ∀ y, y ∈ l → f y ≤ f x.
+Proof.
+  induction l as [|a l IH]; [done|]. intros _.
+  destruct l as [|b l].
+  { exists a. set_solver. }
+  destruct IH as (x & Hx & Hmax); [done|].
+  destruct (decide (f x ≤ f a)).
+  - exists a. split; [set_solver|]. intros y [->|Hy]%elem_of_cons; [done|].
+    specialize (Hmax _ Hy). lia.
+  - exists x. split; [set_solver|]. intros y [->|Hy]%elem_of_cons; [lia|]. by apply Hmax.
+Qed.
+
+Section idom.
+  Context (g : graph) (Hg : rooted g).
+  Notation n := (length g).
+  Context (D : list N) (HDlen : length D = n)
+          (HD : ∀ j x, j < n → (mem x (D !!! j) = true ↔ dom g x j)).
+  Context (ord : nat → list nat → list nat) (Hord : ∀ i l, ord i l ≡ₚ l).
+
+  Lemma sdom_lt i j : j < n → sdom g i j → i < n.
+  Proof. intros ? [? _]. by eapply (dom_lt g Hg). Qed.
+
+  Lemma sdom_trans i j k : k < n → sdom g i j → sdom g j k → sdom g i k.
+  Proof.
+    intros Hk [Hij Hne1] [Hjk Hne2]. split; [by eapply (dom_trans g Hg)|].
+    intros ->. apply Hne2. eapply (dom_antisym g Hg); eauto.
+  Qed.
+
+  Lemma idom_unique a b i : i < n → idom_spec g a i → idom_spec g b i → a = b.
+  Proof.
+    intros Hi [Ha Ha'] [Hb Hb']. eapply (dom_antisym g Hg); [by eapply sdom_lt|by apply Hb'|by apply Ha'].
+  Qed.
+
+  Lemma card_dom_lt a b : b < n → sdom g a b → card (D !!! a) < card (D !!! b).
+  Proof.
+    intros Hb [Hab Hne]. assert (a < n) as Ha by (by eapply (dom_lt g Hg)).
+    apply card_lt.
+    - intros x. rewrite !HD by done. intros. by eapply (dom_trans g Hg).
+    - intros Heq. assert (mem b (D !!! a) = true) as Hm.
+      { rewrite Heq. apply (proj2 (HD b b Hb)), (dom_refl g Hg). }
+      apply (proj1 (HD a b Ha)) in Hm. apply Hne. eapply (dom_antisym g Hg); eauto.
+  Qed.
+
+  (* every node but the entry has an immediate dominator *)
+  Lemma idom_exists i : 0 < i < n → ∃ j, idom_spec g j i.
+  Proof using Hg HD.
+    clear Hord ord HDlen. intros Hi.
+    assert (mem 0 (del i (D !!! i)) = true) as H0.
+    { rewrite mem_del, andb_true_iff, negb_true_iff, bool_decide_eq_false.
+      split; [|lia]. apply HD; [lia|]. apply (dom_entry g Hg). }
+    destruct (list_max_by (λ x, card (D !!! x)) (members (del i (D !!! i)))) as (x & Hx & Hmax).
+    { apply elem_of_members in H0. intros E. rewrite E in H0. set_solver. }
+    apply elem_of_members in Hx.
+    rewrite mem_del, andb_true_iff, negb_true_iff, bool_decide_eq_false, HD in Hx by lia.
+    exists x. split; [done|]. intros k Hk.
+    destruct (decide (k = x)) as [->|Hne]; [apply (dom_refl g Hg)|].
+    destruct (dom_chain g Hg k x i) as [|Hxk]; [lia|apply Hk|apply Hx|done|exfalso].
+    assert (k < n) as Hkn by (eapply sdom_lt; [|done]; lia).
+    assert (card (D !!! x) < card (D !!! k)) by (apply card_dom_lt; [done|]; split; done).
+    assert (card (D !!! k) ≤ card (D !!! x)); [|lia].
+    apply (Hmax k), elem_of_members.
+    rewrite mem_del, andb_true_iff, negb_true_iff, bool_decide_eq_false, HD by lia.
+    destruct Hk. done.
+  Qed.
+
+  Lemma no_idom_entry j : ¬ idom_spec g j 0.
+  Proof. intros [[Hd Hne] _]. by apply (dom_of_entry g Hg) in Hd. Qed.
+
+  (* the accumulated set is the set of strict dominators of the processed
+     candidates, whatever the order and in spite of the `continue` *)
+  Lemma all_dominators_spec S cs all :
+    (∀ j, j ∈ S ++ cs → j < n) →
+    (∀ k, mem k all = true ↔ ∃ j, j ∈ S ∧ sdom g k j) →
+    ∃ all', all_dominators D cs all = Ok all' ∧
+            ∀ k, mem k all' = true ↔ ∃ j, j ∈ S ++ cs ∧ sdom g k j.
+  Proof.
+    revert S all. induction cs as [|j cs IH]; intros S all Hlt Hall.
+    { exists all. split; [done|]. by rewrite app_nil_r. }
+    assert (j < n) as Hj by (apply Hlt; set_solver).
+    cbn [all_dominators]. destruct (mem j all) eqn:Hmem.
+    - destruct (IH (S ++ [j]) all) as (all' & -> & Hall').
+      { intros j'. rewrite <- app_assoc. apply Hlt. }
+      { intros k. rewrite Hall. split; [set_solver|].
+        intros (j' & [Hj'| ->%elem_of_list_singleton]%elem_of_app & Hs); [by eauto|].
+        apply Hall in Hmem as (j'' & Hj'' & Hs'). exists j''. split; [done|].
+        eapply sdom_trans; eauto. apply Hlt. set_solver. }
+      exists all'. split; [done|]. intros k. rewrite Hall', <- app_assoc. done.
+    - rewrite get_ok by lia. cbn [Base.bind].
+      destruct (IH (S ++ [j]) (N.lor (del j (D !!! j)) all)) as (all' & -> & Hall').
+      { intros j'. rewrite <- app_assoc. apply Hlt. }
+      { intros k. rewrite mem_lor, orb_true_iff, mem_del, andb_true_iff, negb_true_iff,
+          bool_decide_eq_false, HD, Hall by done.
+        split.
+        - intros [[? ?]|(j' & ? & ?)]; [exists j; split; [set_solver|done]|exists j'; set_solver].
+        - intros (j' & [Hj'| ->%elem_of_list_singleton]%elem_of_app & Hs); [right; eauto|].
+          left. destruct Hs. done. }
+      exists all'. split; [done|]. intros k. rewrite Hall', <- app_assoc. done.
+  Qed.
+
+  Lemma idom_candidates_spec i :
+    i < n → ∃ c, idom_candidates ord D i = Ok c ∧ ∀ j, mem j c = true ↔ idom_spec g j i.
+  Proof.
+    intros Hi. unfold idom_candidates. rewrite get_ok by lia. cbn [Base.bind].
+    assert (∀ x, mem x (del i (D !!! i)) = true ↔ sdom g x i) as Hc.
+    { intros x. rewrite mem_del, andb_true_iff, negb_true_iff, bool_decide_eq_false, HD by done. done. }
+    destruct (1 <? card (del i (D !!! i))) eqn:Hcard.
+    - destruct (all_dominators_spec [] (ord i (members (del i (D !!! i)))) 0%N) as (all & -> & Hall).
+      { intros j. rewrite app_nil_l, Hord, elem_of_members, Hc. by apply sdom_lt. }
+      { intros k. rewrite mem_0. set_solver. }
+      cbn [Base.bind].
+      assert (∀ j, mem j (N.ldiff (del i (D !!! i)) all) = true ↔ idom_spec g j i) as Hres.
+      { intros j. rewrite mem_ldiff, andb_true_iff, negb_true_iff, Hc. split.
+        - intros [Hs Hnot]. split; [done|]. intros k Hk.
+          destruct (decide (k = j)) as [->|Hne]; [apply (dom_refl g Hg)|].
+          destruct (dom_chain g Hg k j i Hi) as [|Hjk]; [apply Hk|apply Hs|done|exfalso].
+          assert (mem j all = true) as Hin; [|congruence].
+          apply Hall. exists k. split; [|split; [done|congruence]].
+          rewrite app_nil_l, Hord, elem_of_members. by apply Hc.
+        - intros [Hs Hclose]. split; [done|].
+          destruct (mem j all) eqn:Hm; [exfalso|done].
+          apply Hall in Hm as (k & Hk & [Hjk Hne]).
+          rewrite app_nil_l, Hord, elem_of_members, Hc in Hk.
+          apply Hne. eapply (dom_antisym g Hg); [|done|by apply Hclose].
+          by eapply sdom_lt. }
+      assert (card (N.ldiff (del i (D !!! i)) all) ≤ 1) as Hle.
+      { apply card_le_1_intro. intros x y ?%Hres ?%Hres. by eapply idom_unique. }
+      apply Nat.leb_le in Hle. rewrite Hle. eauto.
+    - apply Nat.ltb_ge in Hcard. eexists; split; [done|].
+      intros j. rewrite Hc. split.
+      + intros Hs. split; [done|]. intros k Hk.
+        assert (k = j) as ->; [|apply (dom_refl g Hg)].
+        eapply card_le_1_eq; [done| |]; by apply Hc.
+      + by intros [? _].
+  Qed.
+
+  Lemma idom_loop_spec is idom ch :
+    length idom = n → length ch = n → (∀ i, i ∈ is → i < n) → NoDup is →
+    (∀ i, i ∈ is → idom !!! i = None) →
+    ∃ idom' ch', idom_loop ord D is idom ch = Ok (idom', ch') ∧
+      length idom' = n ∧ length ch' = n ∧
+      (∀ i j, i ∈ is → (idom' !!! i = Some j ↔ idom_spec g j i)) ∧
+      (∀ i, i ∉ is → idom' !!! i = idom !!! i) ∧
+      (∀ j i, j < n → (mem i (ch' !!! j) = true ↔
+                       mem i (ch !!! j) = true ∨ (i ∈ is ∧ idom_spec g j i))).
+  Proof.
+    revert idom ch. induction is as [|i is IH]; intros idom ch Hli Hlc Hlt Hnd Hnone.
+    { exists idom, ch. split_and!; try done; set_solver. }
+    apply NoDup_cons in Hnd as [Hni Hnd].
+    assert (i < n) as Hi by (apply Hlt; set_solver).
+    destruct (idom_candidates_spec i Hi) as (c & Hcand & Hc).
+    cbn [idom_loop]. rewrite Hcand. cbn [Base.bind].
+    destruct (members c) as [|j rest] eqn:Hmem.
+    - (* no immediate dominator *)
+      assert (∀ j, ¬ idom_spec g j i) as Hno.
+      { intros j Hj%Hc%elem_of_members. rewrite Hmem in Hj. set_solver. }
+      destruct (IH idom ch) as (idom' & ch' & -> & ? & ? & Hid & Hkeep & Hch); try done.
+      { intros; apply Hlt; set_solver. }
+      { intros; apply Hnone; set_solver. }
+      exists idom', ch'. split_and!; try done.
+      + intros i' j [->|?]%elem_of_cons; [|by apply Hid].
+        rewrite Hkeep, Hnone by set_solver. split; [done|]. intros ?. by destruct (Hno j).
+      + intros i' ?. apply Hkeep. set_solver.
+      + intros j i' Hj. rewrite Hch by done. split; [set_solver|].
+        intros [?|[[->|?]%elem_of_cons ?]]; [by left|by destruct (Hno j)|set_solver].
+    - assert (idom_spec g j i) as Hji.
+      { apply Hc, elem_of_members. rewrite Hmem. set_solver. }
+      assert (j < n) as Hj by (destruct Hji as [? _]; by eapply sdom_lt).
+      rewrite (get_ok _ idom) by lia. cbn [Base.bind].
+      rewrite (get_ok _ ch) by lia. cbn [Base.bind].
+      destruct (IH (<[i:=Some j]> idom) (<[j:=ins i (ch !!! j)]> ch))
+        as (idom' & ch' & -> & ? & ? & Hid & Hkeep & Hch); try done.
+      { by rewrite insert_length. }
+      { by rewrite insert_length. }
+      { intros; apply Hlt; set_solver. }
+      { intros i' Hi'. rewrite list_lookup_total_insert_ne by set_solver. apply Hnone. set_solver. }
+      exists idom', ch'. split_and!; try done.
+      + intros i' j' [->|?]%elem_of_cons; [|by apply Hid].
+        rewrite Hkeep, list_lookup_total_insert by (done || lia). split.
+        * by intros [= <-].
+        * intros ?. f_equal. by apply (idom_unique j j' i).
+      + intros i' ?. rewrite Hkeep by set_solver. apply list_lookup_total_insert_ne. set_solver.
+      + intros j' i' Hj'. rewrite Hch by done.
+        destruct (decide (j' = j)) as [->|Hne].
+        * rewrite list_lookup_total_insert, mem_ins, orb_true_iff, bool_decide_eq_true by lia.
+          split; [set_solver|].
+          intros [?|[[->|?]%elem_of_cons ?]]; [by left; right|by left; left|by right].
+        * rewrite list_lookup_total_insert_ne by done.
+          split; [set_solver|].
+          intros [?|[[->|?]%elem_of_cons ?]]; [by left| |by right].
+          destruct Hne. by apply (idom_unique j' j i).
+  Qed.
+
+  Theorem compute_immediate_dominators_correct :
+    ∃ idom ch, compute_immediate_dominators ord g D = Ok (idom, ch) ∧
+      length idom = n ∧ length ch = n ∧
+      (∀ i j, i < n → (idom !!! i = Some j ↔ idom_spec g j i)) ∧
+      (∀ j i, j < n → i < n → (mem i (ch !!! j) = true ↔ idom_spec g j i)).
+  Proof.
+    unfold compute_immediate_dominators.
+    destruct (idom_loop_spec (seq 0 n) (replicate n None) (replicate n 0%N))
+      as (idom & ch & -> & ? & ? & Hid & _ & Hch).
+    { apply replicate_length. }
+    { apply replicate_length. }
+    { intros i ?%elem_of_seq. lia. }
+    { apply NoDup_seq. }
+    { intros i ?%elem_of_seq. apply lookup_total_replicate_2. lia. }
+    exists idom, ch. split_and!; try done.
+    - intros i j Hi. apply Hid, elem_of_seq. lia.
+    - intros j i Hj Hi. rewrite Hch, lookup_total_replicate_2, mem_0, elem_of_seq by done.
+      split; [intros [|[]]; done|]. intros. right. split; [lia|done].
+  Qed.
+End idom.
+
+(* ------------------------------------------------------------------ *)
+(* compute_dominance_frontier                                          *)
+(* ------------------------------------------------------------------ *)
+Section frontier.
+  Context (g : graph) (Hg : rooted g).
+  Notation n := (length g).
+  Context (D : list N) (HDlen : length D = n)
+          (HD : ∀ j x, j < n → (mem x (D !!! j) = true ↔ dom g x j)).
+  Context (idom : list (option nat)) (Hilen : length idom = n)
+          (Hidom : ∀ i j, i < n → (idom !!! i = Some j ↔ idom_spec g j i)).
+
+  (* with t the immediate dominator of i: x strictly dominates i iff x dominates t *)
+  Lemma sdom_iff_dom_idom t i x : i < n → idom_spec g t i → (sdom g x i ↔ dom g x t).
+  Proof.
+    intros Hi [[Hti Hne] Hcl]. split; [apply Hcl|].
+    intros Hxt. split; [by eapply (dom_trans g Hg)|].
+    intros ->. apply Hne. by eapply (dom_antisym g Hg).
+  Qed.
+
+  Lemma card_pos k : k < n → 0 < card (D !!! k).
+  Proof.
+    intros Hk. assert (mem k (D !!! k) = true) as Hm%elem_of_members.
+    { apply HD; [done|]. apply (dom_refl g Hg). }
+    unfold card. destruct (members _); [set_solver|simpl; lia].
+  Qed.
+
+  (* the walk from k up the dominator tree, stopping below t *)
+  Lemma df_walk_spec fuel i t k DF :
+    i < n → idom !!! i = Some t → k < n → dom g t k → card (D !!! k) ≤ fuel → length DF = n →
+    ∃ DF', df_walk fuel idom i k DF = Ok DF' ∧ length DF' = n ∧
+      ∀ x y, x < n → (mem y (DF' !!! x) = true ↔
+                      mem y (DF !!! x) = true ∨ (y = i ∧ dom g x k ∧ ¬ dom g x t)).
+  Proof.
+    intros Hi Ht. revert k DF. induction fuel as [|fuel IH]; intros k DF Hk Htk Hfuel HDF.
+    { pose proof (card_pos k Hk). lia. }
+    cbn [df_walk]. rewrite (get_ok _ idom i) by lia. cbn [Base.bind]. rewrite Ht.
+    destruct (decide (Some k = Some t)) as [[= ->]|Hne].
+    { exists DF. split_and!; [done|done|]. intros x y Hx. split; [by left|]. intros [|(_ & ? & ?)]; done. }
+    assert (k ≠ t) as Hkt by congruence.
+    assert (t < n) as Htn by (by eapply (dom_lt g Hg)).
+    assert (0 < k) as Hk0.
+    { destruct k; [|lia]. apply (dom_of_entry g Hg) in Htk. congruence. }
+    destruct (idom_exists g Hg D HD k) as (k' & Hk'); [lia|].
+    rewrite (get_ok _ DF k) by lia. cbn [Base.bind].
+    rewrite (get_ok _ idom k) by lia. cbn [Base.bind].
+    rewrite (proj2 (Hidom k k' Hk) Hk').
+    pose proof Hk' as [[Hdk' Hnek'] Hclk'].
+    assert (k' < n) as Hk'n by apply (dom_lt g Hg k' k Hk Hdk').
+    destruct (IH k' (<[k:=ins i (DF !!! k)]> DF)) as (DF' & -> & HL & HDF'); try done.
+    { apply Hclk'. split; [done|congruence]. }
+    { pose proof (card_dom_lt g Hg D HD k' k Hk (conj Hdk' Hnek')). lia. }
+    { by rewrite insert_length. }
+    exists DF'. split_and!; [done|done|]. intros x y Hx. rewrite HDF' by done.
+    destruct (decide (x = k)) as [->|Hxk].
+    - rewrite list_lookup_total_insert, mem_ins, orb_true_iff, bool_decide_eq_true by lia.
+      split.
+      + intros [[->|?]|(-> & ? & ?)]; [right|by left|right].
+        * split_and!; [done|apply (dom_refl g Hg)|]. intros ?. apply Hkt. by apply (dom_antisym g Hg).
+        * split_and!; [done|apply (dom_refl g Hg)|done].
+      + intros [?|(-> & _ & _)]; left; [by right|by left].
+    - rewrite list_lookup_total_insert_ne by done. split.
+      + intros [?|(-> & ? & ?)]; [by left|right]. split_and!; [done| |done].
+        by eapply (dom_trans g Hg).
+      + intros [?|(-> & Hxk' & ?)]; [by left|right]. split_and!; [done| |done].
+        apply Hclk'. split; done.
+  Qed.
+
+  Lemma df_preds_spec fuel i t ps DF :
+    i < n → idom !!! i = Some t → n ≤ fuel → (∀ j, j ∈ ps → edge g j i) → length DF = n →
+    ∃ DF', df_preds fuel idom i ps DF = Ok DF' ∧ length DF' = n ∧
+      ∀ x y, x < n → (mem y (DF' !!! x) = true ↔
+                      mem y (DF !!! x) = true ∨ (y = i ∧ ∃ j, j ∈ ps ∧ dom g x j ∧ ¬ dom g x t)).
+  Proof.
+    intros Hi Ht Hfuel. revert DF. induction ps as [|j ps IH]; intros DF Hps HDF.
+    { exists DF. split_and!; [done|done|]. intros x y _. set_solver. }
+    assert (edge g j i) as He by (apply Hps; set_solver).
+    assert (j < n) as Hj by (by eapply edge_lt).
+    pose proof (proj1 (Hidom i t Hi) Ht) as [[Hti Hne] _].
+    destruct (df_walk_spec fuel i t j DF) as (DF1 & H1 & HL1 & HDF1); try done.
+    { by eapply (dom_pred g Hg). }
+    { etrans; [|done]. apply card_bounded. intros x Hx%HD; [|done]. by eapply (dom_lt g Hg). }
+    destruct (IH DF1) as (DF' & H2 & HL2 & HDF'); [intros; apply Hps; set_solver|done|].
+    exists DF'. cbn [df_preds]. rewrite H1. cbn [Base.bind]. split_and!; [done|done|].
+    intros x y Hx. rewrite HDF', HDF1 by done. split.
+    - intros [[?|(-> & ? & ?)]|(-> & j' & ? & ? & ?)]; [by left|right|right].
+      + split; [done|]. exists j. set_solver.
+      + split; [done|]. exists j'. set_solver.
+    - intros [?|(-> & j' & [->|?]%elem_of_cons & ? & ?)]; [by left; left|left; right|right]; eauto.
+  Qed.
+
+  (* a node with a single predecessor is strictly dominated by it *)
+  Lemma single_pred i q : i < n → preds (g !!! i) = [q] → sdom g q i.
+  Proof.
+    intros Hi Hp.
+    assert (i ≠ 0) as Hi0.
+    { intros ->. rewrite (rooted_entry g Hg (g !!! 0)) in Hp by (by apply lookup_total_node). done. }
+    assert (∀ l, path g 0 i l → ∃ l', l = l' ++ [i] ∧ q ∈ l') as Hshape.
+    { intros l Hl. destruct (path_snoc_inv _ _ _ _ Hl) as [[_ ?]|(l' & b & -> & Hp' & He)]; [done|].
+      exists l'. split; [done|]. apply (edge_preds g Hg) in He as [_ Hb]. rewrite Hp in Hb.
+      apply elem_of_list_singleton in Hb as ->. destruct (path_end _ _ _ _ Hp') as [? ->]. set_solver. }
+    split.
+    - intros l Hl. destruct (Hshape l Hl) as (l' & -> & ?). set_solver.
+    - intros ->. destruct (rooted_reach g Hg i Hi) as [l Hl].
+      assert (i ∈ l) as (l1 & l2 & -> & Hni)%elem_of_list_split_l.
+      { destruct (path_end _ _ _ _ Hl) as [? ->]. set_solver. }
+      destruct (path_split _ _ _ _ _ _ Hl) as [H1 _].
+      destruct (Hshape _ H1) as (l' & [-> _]%app_inj_tail & ?). done.
+  Qed.
+
+  Lemma df_loop_spec fuel is DF :
+    n ≤ fuel → (∀ i, i ∈ is → i < n) → length DF = n →
+    ∃ DF', df_loop fuel g idom is DF = Ok DF' ∧ length DF' = n ∧
+      ∀ x y, x < n → (mem y (DF' !!! x) = true ↔
+                      mem y (DF !!! x) = true ∨ (y ∈ is ∧ df_spec g x y)).
+  Proof.
+    intros Hfuel. revert DF. induction is as [|i is IH]; intros DF His HDF.
+    { exists DF. split_and!; [done|done|]. intros x y _. set_solver. }
+    assert (i < n) as Hi by (apply His; set_solver).
+    cbn [df_loop]. rewrite get_ok by done. cbn [Base.bind].
+    assert (∀ x, df_spec g x i ↔
+                 (∃ q, q ∈ preds (g !!! i) ∧ dom g x q) ∧ ¬ sdom g x i) as Hdf.
+    { intros x. unfold df_spec. split.
+      - intros [(x0 & q & Hx0 & ? & ?) ?]. split; [|done]. exists q.
+        by rewrite (list_lookup_total_correct _ _ _ Hx0).
+      - intros [(q & ? & ?) ?]. split; [|done]. exists (g !!! i), q. split_and!; [|done|done].
+        by apply lookup_total_node. }
+    destruct (1 <? length (preds (g !!! i))) eqn:Hlen.
+    - apply Nat.ltb_lt in Hlen.
+      assert (0 < i) as Hi0.
+      { destruct i; [|lia]. rewrite (rooted_entry g Hg (g !!! 0)) in Hlen by (by apply lookup_total_node).
+        simpl in Hlen. lia. }
+      destruct (idom_exists g Hg D HD i) as (t & Ht); [lia|].
+      pose proof (proj2 (Hidom i t Hi) Ht) as Hit.
+      destruct (df_preds_spec fuel i t (preds (g !!! i)) DF) as (DF1 & -> & HL1 & HDF1); try done.
+      { intros j Hj. by apply (preds_edge g Hg). }
+      cbn [Base.bind].
+      destruct (IH DF1) as (DF' & -> & HL' & HDF'); [intros; apply His; set_solver|done|].
+      exists DF'. split_and!; [done|done|]. intros x y Hx. rewrite HDF', HDF1 by done.
+      assert ((∃ j, j ∈ preds (g !!! i) ∧ dom g x j ∧ ¬ dom g x t) ↔ df_spec g x i) as ->.
+      { rewrite Hdf. rewrite (sdom_iff_dom_idom t i x Hi Ht). naive_solver. }
+      split.
+      + intros [[?|[-> ?]]|[? ?]]; [by left|right|right]; split; set_solver.
+      + intros [?|[[->|?]%elem_of_cons ?]]; [by left; left|left; right|right]; done.
+    - apply Nat.ltb_ge in Hlen.
+      assert (∀ x, ¬ df_spec g x i) as Hno.
+      { intros x [(q & Hq & Hxq) Hns]%Hdf.
+        destruct (preds (g !!! i)) as [|q' [|??]] eqn:Hp; [set_solver| |simpl in Hlen; lia].
+        apply elem_of_list_singleton in Hq as ->.
+        pose proof (single_pred i q' Hi Hp) as [Hqi Hne].
+        assert (x = i) as ->.
+        { destruct (decide (x = i)); [done|]. destruct Hns. split; [|done]. by eapply (dom_trans g Hg). }
+        apply Hne. by eapply (dom_antisym g Hg). }
+      destruct (IH DF) as (DF' & -> & HL' & HDF'); [intros; apply His; set_solver|done|].
+      exists DF'. split_and!; [done|done|]. intros x y Hx. rewrite HDF' by done.
+      split; [set_solver|].
+      intros [?|[[->|?]%elem_of_cons ?]]; [by left|by destruct (Hno x)|by right].
+  Qed.
+
+  Theorem compute_dominance_frontier_correct fuel :
+    n ≤ fuel →
+    ∃ DF, compute_dominance_frontier fuel g idom = Ok DF ∧ length DF = n ∧
+      ∀ x y, x < n → (mem y (DF !!! x) = true ↔ df_spec g x y).
+  Proof.
+    intros Hfuel. unfold compute_dominance_frontier.
+    destruct (df_loop_spec fuel (seq 0 n) (replicate n 0%N) Hfuel) as (DF & -> & HL & HDF).
+    { intros i ?%elem_of_seq. lia. }
+    { apply replicate_length. }
+    exists DF. split_and!; [done|done|]. intros x y Hx.
+    rewrite HDF, lookup_total_replicate_2, mem_0, elem_of_seq by done.
+    split; [intros [|[]]; done|]. intros Hdf. right. split; [|done].
+    destruct Hdf as [(x0 & _ & Hx0%lookup_lt_Some & _) _]. lia.
+  Qed.
+End frontier.
+
+(* ------------------------------------------------------------------ *)
+(* DominatorTree::new                                                  *)
+(* ------------------------------------------------------------------ *)
+Record tree_ok (g : graph) (t : dom_tree) : Prop := {
+  ok_dom_len : length (dt_dominators t) = length g;
+  ok_idom_len : length (dt_idom t) = length g;
+  ok_ch_len : length (dt_children t) = length g;
+  ok_df_len : length (dt_frontier t) = length g;
+  ok_dom : ∀ j x, j < length g → (mem x (dt_dominators t !!! j) = true ↔ dom g x j);
+  ok_idom : ∀ i j, i < length g → (dt_idom t !!! i = Some j ↔ idom_spec g j i);
+  ok_ch : ∀ j i, j < length g → i < length g → (mem i (dt_children t !!! j) = true ↔ idom_spec g j i);
+  ok_df : ∀ x y, x < length g → (mem y (dt_frontier t !!! x) = true ↔ df_spec g x y);
+}.
+
+Theorem dominator_tree_correct g ord :
+  rooted g → order_ok ord → ∃ t, dominator_tree (dom_fuel g) ord g = Ok t ∧ tree_ok g t.
+Proof.
+  intros Hg Hord. unfold dominator_tree.
+  destruct (compute_dominators_correct g Hg) as (D & -> & HDlen & HD). cbn [Base.bind].
+  destruct (compute_immediate_dominators_correct g Hg D HDlen HD ord Hord)
+    as (idom & ch & -> & Hilen & Hclen & Hidom & Hch). cbn [Base.bind fst snd].
+  destruct (compute_dominance_frontier_correct g Hg D HDlen HD idom Hilen Hidom (dom_fuel g))
+    as (DF & -> & HFlen & HDF).
+  { unfold dom_fuel. pose proof (rooted_nonempty g Hg). nia. }
+  cbn [Base.bind]. pose proof (rooted_nonempty g Hg) as Hn.
+  rewrite get_ok by lia. cbn [Base.bind].
+  destruct (idom !!! 0) as [j|] eqn:E.
+  { apply Hidom in E; [|done]. by apply no_idom_entry in E. }
+  eexists. split; [done|]. by split.
+Qed.
+
+(* the statements of props/C15.v, phrased with partial lookups *)
+Section statements.
+  Context (g : graph) (ord : nat → list nat → list nat) (t : dom_tree).
+  Context (Hg : rooted g) (Hord : order_ok ord).
+  Context (Ht : dominator_tree (dom_fuel g) ord g = Ok t).
+
+  Lemma tree_is_ok : tree_ok g t.
+  Proof.
+    destruct (dominator_tree_correct g ord Hg Hord) as (t' & Ht' & Hok). congruence.
+  Qed.
+
+  Lemma dominators_exact j dj i :
+    dt_dominators t !! j = Some dj → (mem i dj = true ↔ dom g i j).
+  Proof.
+    intros Hj. pose proof tree_is_ok as Hok.
+    rewrite <- (list_lookup_total_correct _ _ _ Hj). apply (ok_dom _ _ Hok).
+    rewrite <- (ok_dom_len _ _ Hok). by eapply lookup_lt_Some.
+  Qed.
+
+  Lemma idom_exact i o j :
+    dt_idom t !! i = Some o → (o = Some j ↔ idom_spec g j i).
+  Proof.
+    intros Hi. pose proof tree_is_ok as Hok.
+    rewrite <- (list_lookup_total_correct _ _ _ Hi). apply (ok_idom _ _ Hok).
+    rewrite <- (ok_idom_len _ _ Hok). by eapply lookup_lt_Some.
+  Qed.
+
+  Lemma idom_total i o :
+    dt_idom t !! i = Some o → (o = None ↔ i = 0).
+  Proof.
+    intros Hi. pose proof tree_is_ok as Hok.
+    assert (i < length g) as Hlt.
+    { rewrite <- (ok_idom_len _ _ Hok). by eapply lookup_lt_Some. }
+    pose proof (λ j, idom_exact i o j Hi) as Hex. split.
+    - intros ->. destruct (decide (i = 0)) as [|Hne]; [done|exfalso].
+      destruct (idom_exists g Hg (dt_dominators t) (ok_dom _ _ Hok) i) as (j & Hj); [lia|].
+      by apply Hex in Hj.
+    - intros ->. destruct o as [j|]; [exfalso|done].
+      eapply no_idom_entry; [done|]. by apply Hex.
+  Qed.
+
+  Lemma children_invert_idom j cj i :
+    dt_children t !! j = Some cj → i < length g →
+    (mem i cj = true ↔ dt_idom t !! i = Some (Some j)).
+  Proof.
+    intros Hj Hi. pose proof tree_is_ok as Hok.
+    assert (j < length g) as Hlt.
+    { rewrite <- (ok_ch_len _ _ Hok). by eapply lookup_lt_Some. }
+    rewrite <- (list_lookup_total_correct _ _ _ Hj), (ok_ch _ _ Hok), <- (ok_idom _ _ Hok) by done.
+    assert (dt_idom t !! i = Some (dt_idom t !!! i)) as ->.
+    { apply list_lookup_lookup_total_lt. by rewrite (ok_idom_len _ _ Hok). }
+    split; [by intros ->|by intros [= ->]].
+  Qed.
+
+  Lemma frontier_exact i fi j :
+    dt_frontier t !! i = Some fi → (mem j fi = true ↔ df_spec g i j).
+  Proof.
+    intros Hi. pose proof tree_is_ok as Hok.
+    rewrite <- (list_lookup_total_correct _ _ _ Hi). apply (ok_df _ _ Hok).
+    rewrite <- (ok_df_len _ _ Hok). by eapply lookup_lt_Some.
+  Qed.
+End statements.
+
+Lemma dom_fuel_suffices g :
+  rooted g → ∃ D, compute_dominators (dom_fuel g) g = Ok D ∧ length D = length g.
+Proof. intros Hg. destruct (compute_dominators_correct g Hg) as (D & ? & ? & _). eauto. Qed.
+
+Lemma idom_spec_unique g a b i :
+  rooted g → i < length g → idom_spec g a i → idom_spec g b i → a = b.
+Proof. intros Hg. by apply idom_unique. Qed.
+
+
+Lemma dominator_tree_no_panic g ord :
+  rooted g → order_ok ord →
+  ∃ t, dominator_tree (dom_fuel g) ord g = Ok t ∧
+    length (dt_dominators t) = length g ∧ length (dt_idom t) = length g ∧
+    length (dt_children t) = length g ∧ length (dt_frontier t) = length g.
+Proof.
+  intros Hg Hord. destruct (dominator_tree_correct g ord Hg Hord) as (t & Ht & Hok).
+  exists t. split; [exact Ht|]. destruct Hok; auto.
+Qed.
